@@ -54,8 +54,7 @@ Fixpoint wire_payload (t : ty) (v : val) {struct t} : payload :=
       match k with
       | KF32 => PFixed32 (le_bytes 4 z)
       | KF64 => PFixed64 (le_bytes 8 z)
-      | KI64 | KU64 | KEnum => PVarint (u64 z)
-      | _ => PVarint (u32 z)
+      | _ => if wide k then PVarint (u64 z) else PVarint (u32 z)
       end
   | TPtr _ e, VSome x => wire_payload e x
   | _, _ => PLen (encode t v)
@@ -138,7 +137,7 @@ Proof.
     rewrite firstn_app_exact, skipn_app_exact, payload_ld by auto. reflexivity.
   - cbn [app]. assert (Hnn : nonnull t x) by (apply nld_size_nonnull; auto).
     destruct (nld_scalar t x Hld Hwf Hnn) as (k & z & Hr & He & Hw & Hp). rewrite He, Hw, Hp.
-    destruct k; cbn [sk_wire sk_encode wire_payload Z.eqb Pos.eqb];
+    rewrite sk_encode_spec. destruct k; cbn [sk_wire wide wire_payload Z.eqb Pos.eqb];
       try (rewrite get_varint_varint by apply u32_range; reflexivity);
       try (rewrite get_varint_varint by apply u64_range; reflexivity).
     + rewrite app_length, le_bytes_length.
